@@ -9,6 +9,7 @@ original blocks are reconstructed. This file adds the parameter header: what `wr
 `read` returns, for every vector in the estimator's range.
 -/
 import Preflate.Proofs.Params
+import Preflate.Proofs.Estimator
 import Preflate.Props.C02
 namespace Preflate
 
@@ -30,6 +31,27 @@ theorem readParams_writeParams (p : Params) (h : p.WF) (rest : List Op) :
 /-- Everything the estimator can emit fits the serialised widths. -/
 theorem estimatorRange_wf (p : Params) (h : EstimatorRange p) : p.WF :=
   Proofs.estimatorRange_wf p h
+
+/-- the fields the estimator computes without the candidate hash tables (Model/Estimator.lean, tied to
+    the code by the `estimate` requests) land inside the ranges `EstimatorRange` quantifies over:
+    strategy / Huffman strategy discriminants, the no-dictionary vector, window bits 9..15, block size
+    2^(6+m) - 1, add policy 0..4 with a limit that fits the 8-bit field (the D8 regression as a theorem)
+    and is zero for the policies that carry none -/
+theorem estimator_front_in_range (blocks : List Block) (f : Est.Front) (h : Est.front blocks = .ok f) :
+    f.strategy ≤ 3 ∧ f.huffStrategy ≤ 2 ∧
+    (f.noDictionary = true → (f.strategy = 2 ∨ f.strategy = 3) ∧ f.windowBits = 0 ∧
+        f.maxTokenCount = 16386 ∧ f.addPolicy = 0 ∧ f.addLimit = 0) ∧
+    (f.noDictionary = false → f.strategy ≤ 1 ∧ 9 ≤ f.windowBits ∧ f.windowBits ≤ 15 ∧
+        (∃ m, 1 ≤ m ∧ m ≤ 9 ∧ f.maxTokenCount = 2 ^ (6 + m) - 1) ∧
+        f.addPolicy ≤ 4 ∧ f.addLimit ≤ 255 ∧ (f.addPolicy ≠ 1 → f.addPolicy ≠ 2 → f.addLimit = 0)) :=
+  Proofs.front_in_range blocks f h
+
+/-- D1 regression as a theorem: a stream without any reference (stored and match-free Huffman blocks
+    in any mix) takes the no-dictionary path, on which `min_len` (left at u32::MAX) is never serialised -/
+theorem no_references_no_dictionary (blocks : List Block)
+    (h : ∀ b ∈ blocks, Est.blockMaxDist (blockTokens b) = 0) (f : Est.Front) (hf : Est.front blocks = .ok f) :
+    f.noDictionary = true :=
+  Proofs.no_references_no_dictionary blocks h f hf
 
 /-- The field order and widths the model uses are the ones `write` and `read` have in the source
     now, and the two agree with each other (widths and selectors; expression text is not compared). -/
